@@ -880,8 +880,6 @@ def fix_shape(rng, case):
             case["reset_index"] = False
         if any(t in TO_FRAME for t in tr) and not any(t in TO_SERIES for t in tr):
             case["select"] = "last"                     # a list of columns can only be taken from the frame window
-        if any(t in TO_SERIES for t in tr) and agg in ("var", "std") and case["sizes"] and case["sizes"][0] == 0:
-            case["agg"] = agg = "mean"                  # a single column's Var cannot take an empty first batch (see below)
         case["transform"] = tr
         if not tr:
             case.pop("transform")
@@ -891,16 +889,10 @@ def fix_shape(rng, case):
         case["frame"] = "series"
         if case.get("grouper") not in (None, "col", "list"):
             case["grouper"] = "col"
-        if series_var and case["sizes"] and case["sizes"][0] == 0:
-            case["reset_index"] = False     # a single column's Var cannot take an empty first batch (see below)
     if agg == "value_counts":
         case["frame"] = "series"            # only defined on a column
-    if series_var and case["frame"] == "series":
-        # aggregations.Var on a column divides the python ints of `initial` 0/0 (ZeroDivisionError) while nothing has
-        # been seen: when the stream is built from an empty example, and on an empty first batch (C06 makes no claim)
-        case["example"] = "row"
-        if case["sizes"] and case["sizes"][0] == 0:
-            case["frame"] = "df"
+    # (a single column's var / std from an empty example and over an empty first batch is generated like everything else:
+    # aggregations.Var used to raise ZeroDivisionError there, repaired in /repo 445f1a7)
     if fam == "ewm" and case["param"] != "halflife" and rng.random() < 0.8:
         for c in ("x", "y"):
             case[c] = [rng.choice(c11.VALUES[1:]) if v is None else v for v in case[c]]
